@@ -158,11 +158,18 @@ func DeltaThreshold(eco string, lo, hi uint64) uint64 {
 				}
 			}
 		}
-		// a capacity written as a product (64 shards x 32768 slots): products of two new literals count as well
+		// a capacity written as a product or a shift (64 shards x 32768 slots, 64 << 20): products of a new literal with
+		// any number literal of the package count as well
 		if len(vals) <= 400 {
-			for i, a := range vals {
-				for _, b := range vals[i:] {
-					if p := a * b; p >= lo && p <= hi && p > best {
+			var all []uint64
+			for _, n := range ecoNums[pkg] {
+				if v, err := strconv.ParseUint(n, 10, 64); err == nil && v >= 2 && v <= hi {
+					all = append(all, v)
+				}
+			}
+			for _, a := range vals {
+				for _, b := range all {
+					if p := a * b; p/b == a && p >= lo && p <= hi && p > best {
 						best = p
 					}
 				}
